@@ -30,6 +30,16 @@ MAGIC_LEN = {"gzip": 3, "xz": 6, "zstd": 4, "bzip2": 3}
 JOBS = int(os.environ.get("VERIF_JOBS", "3"))       # parallel tool runs (the machine may be shared)
 
 
+_REPORTED = {}
+
+
+def report(ctx, key, what, replay, found_input=True, cap=3):
+    """ctx.violation, at most `cap` replays per key (a broken tree otherwise produces hundreds of identical reports)"""
+    _REPORTED[key] = _REPORTED.get(key, 0) + 1
+    if _REPORTED[key] <= cap:
+        ctx.violation(key, what, replay, found_input)
+
+
 def tok(b):
     return b.hex() if b else "-"
 
@@ -103,7 +113,12 @@ def run_lines(ctx, exe, lines, timeout=1800):
             return o.splitlines(), "timeout", ""
     out = []
     start = 0
+    bad_lines = 0
     while start < len(lines):
+        if bad_lines >= 8:
+            # the code under test is broken on so many scenarios that running the rest only costs time
+            out += ["SKIPPED"] * (len(lines) - start)
+            break
         got, rc, err = once(lines[start:], timeout)
         want = len(lines) - start
         if rc == 0 and len(got) == want:
@@ -112,6 +127,7 @@ def run_lines(ctx, exe, lines, timeout=1800):
         if rc == 3 and got and got[-1].endswith("HANG"):
             out += [g.strip() for g in got]          # the watchdog fired on the last line printed
             start += len(got)
+            bad_lines += 1
             continue
         k = min(len(got), want - 1)
         out += got[:k]
@@ -123,6 +139,7 @@ def run_lines(ctx, exe, lines, timeout=1800):
         else:
             e = (err1 or err).strip().splitlines()
             out.append("HANG" if rc1 == "timeout" else "ABORT rc=%s %s" % (rc1, e[0][:200] if e else ""))
+        bad_lines += 1
         start += k + 1
     return out
 
@@ -346,6 +363,9 @@ def fake_codec_part(ctx):
                 samples.append({"line": s["line"][:300], "impl": i[:200], "model": m[:200]})
             if i == m:
                 continue
+            if i == "SKIPPED":
+                stats["skipped"] = stats.get("skipped", 0) + 1
+                continue
             stats["disagreements"] += 1
             bad = spec_verdict(s, i)
             rep = {"harness": "h_c15 (BUFSZ=%d%s)" % (bufsz, ", unmodified files" if real else ", constant rewritten"),
@@ -520,6 +540,9 @@ def wrapper_part(ctx):
         stats["families"][s["family"]] = stats["families"].get(s["family"], 0) + 1
         if same_trace(i, m):
             continue
+        if i == "SKIPPED":
+            stats["skipped"] = stats.get("skipped", 0) + 1
+            continue
         stats["disagreements"] += 1
         bad, key = wrap_spec_verdict(s, i)
         as_old = same_trace(i, om)
@@ -529,7 +552,7 @@ def wrapper_part(ctx):
                "model_of_unpatched_loops": om[:2000], "matches_unpatched_model": as_old}
         if bad:
             stats["spec_failures"] += 1
-            ctx.violation(key, "process_data of %s over the fake library violates %s (impl: %s)" % (s["backend"], bad, i[:150]), rep)
+            report(ctx, key, "process_data of %s over the fake library violates %s (impl: %s)" % (s["backend"], bad, i[:150]), rep)
         elif as_old:
             # the working tree has the unpatched loop, whose model (Sqfs/Model/XfrmOld.lean) predicts exactly this trace, and no
             # clause of the contract is violated on it (e.g. a FLUSH_FULL call on an idle stream object): nothing to report
@@ -800,7 +823,7 @@ def tool_part(ctx, bufsz):
         if len(samples) < 6 and results["by_class"][cls] == 1:
             samples.append({"class": cls, "codec": codec, "archive": tag, "variant": desc, "bytes": len(data), "outcome": res[0] if not same else "same image"})
         if key:
-            ctx.violation(key, what, {"tool": "tar2sqfs", "codec": codec, "class": cls, "archive": tag, "variant": desc,
+            report(ctx, key, what, {"tool": "tar2sqfs", "codec": codec, "class": cls, "archive": tag, "variant": desc,
                                       "input_hex": tok(data) if len(data) <= 70000 else None, "input_sha256": vlib.sha(data),
                                       "input_len": len(data), "expected": oracle, "got": list(res[:2])})
 
@@ -843,7 +866,7 @@ def tool_part(ctx, bufsz):
         elif exp != base:
             key, what = "not-transparent:sqfs2tar:%s" % codec, "sqfs2tar -c %s output expands to something else than plain sqfs2tar output" % codec
         if key:
-            ctx.violation(key, what, {"tool": "sqfs2tar", "codec": codec, "archive": tag, "tar_len": len(base),
+            report(ctx, key, what, {"tool": "sqfs2tar", "codec": codec, "archive": tag, "tar_len": len(base),
                                       "archive_recipe": "one file of incompressible/compressible bytes so that the tar stream is %d bytes" % len(base)})
     return results, samples
 
